@@ -111,7 +111,20 @@ class P:
             if self.at("id", "mut"):
                 self.eat()
                 mut = True
-            name = self.eat("id")
+            if self.at("op", "("):
+                # tuple pattern `let (a, b, c) = …`
+                self.eat()
+                names = []
+                while not self.at("op", ")"):
+                    if self.at("id", "mut"):
+                        self.eat()
+                    names.append(self.eat("id"))
+                    if self.at("op", ","):
+                        self.eat()
+                self.eat("op", ")")
+                name = tuple(names)
+            else:
+                name = self.eat("id")
             if self.at("op", ":"):
                 self.eat()
                 self.type_()
@@ -468,6 +481,10 @@ def tr(e, env):
         recv, name, args = e[1], e[2], e[3]
         if name == "min" and len(args) == 1:
             return "(min %s %s)" % (tr(recv, env), tr(args[0], env))
+        if name == "max" and len(args) == 1:
+            return "(max %s %s)" % (tr(recv, env), tr(args[0], env))
+        if name == "saturating_sub" and len(args) == 1:
+            return "(%s - %s)" % (tr(recv, env), tr(args[0], env))      # natural subtraction is saturating
         if name == "is_multiple_of" and len(args) == 1:
             return "(%s %% %s = 0)" % (tr(recv, env), tr(args[0], env))
         if name in ("to_bits", "as_val") and not args:
@@ -528,6 +545,24 @@ def run(stmts, env):
             tree = ("if", "(%s = %s)" % (scrut, variant.replace("::", "_")), run(body, env), tree)
         return tree
     if k == "skip":
+        return run(rest, env)
+    if k == "let" and s[3] is not None and s[3][0] == "if" and s[3][3] is not None and \
+            not (len(s[3][2]) == 1 and len(s[3][3]) == 1 and not isinstance(s[1], tuple)):
+        # `let pat = if c { stmts; e1 } else { stmts; e2 };` — the branches are executed, each ending
+        # in the binding of its own tail expression
+        def bind(block):
+            if not block or block[-1][0] != "tail":
+                raise TranslateError("branch of a `let … = if` has no value")
+            return block[:-1] + [("let", s[1], s[2], block[-1][1])]
+        c = tr(s[3][1], env)
+        return ("if", c, run(bind(s[3][2]) + rest, env), run(bind(s[3][3]) + rest, env))
+    if k == "let" and isinstance(s[1], tuple):
+        if s[3] is None or s[3][0] != "tuple" or len(s[3][1]) != len(s[1]):
+            raise TranslateError("tuple pattern bound to something that is not a tuple of the same width")
+        env = env.copy()
+        vals = [tr(x, env) for x in s[3][1]]
+        for nm, v in zip(s[1], vals):
+            env.vals[nm] = v
         return run(rest, env)
     if k == "let":
         env = env.copy()
